@@ -62,9 +62,42 @@ fn oracle(d: &IotaDID) -> Option<String> {
     _ => return Some("iota-json-roundtrip:".into()),
   }
   match IotaDID::try_from(CoreDID::from(d.clone())) {
-    Ok(d2) if &d2 == d => None,
-    _ => Some("iota-try-from-core:".into()),
+    Ok(d2) if &d2 == d => {}
+    _ => return Some("iota-try-from-core:".into()),
   }
+  // every other view of the value is the same string, and the library's own validity tests accept it
+  let views: [(&str, String); 8] = [
+    ("Debug", format!("{:?}", d)),
+    ("into_string", d.clone().into_string()),
+    ("Into<String>", String::from(d.clone())),
+    ("Into<CoreDID>", CoreDID::from(d.clone()).to_string()),
+    ("AsRef<CoreDID>", AsRef::<CoreDID>::as_ref(d).to_string()),
+    ("key", identity_core::common::KeyComparable::key(d).to_string()),
+    ("to_url", d.to_url().to_string()),
+    ("scheme:authority", format!("{}:{}", d.scheme(), d.authority())),
+  ];
+  for (name, v) in views {
+    if v != s {
+      return Some(format!("iota-not-normal-form:{} gives {:?} for {:?}", name, v, s));
+    }
+  }
+  let core = CoreDID::from(d.clone());
+  if !IotaDID::is_valid(&core) || IotaDID::check_validity(&core).is_err() || IotaDID::check_validity(d).is_err() {
+    return Some("iota-validity-tests-disagree:is_valid / check_validity refuse an accepted IotaDID".into());
+  }
+  if d.is_placeholder() != (t == IotaDID::PLACEHOLDER_TAG) || d.is_placeholder() != (tag_bytes(t) == Some(vec![0u8; 32])) {
+    return Some("iota-placeholder:is_placeholder disagrees with the tag".into());
+  }
+  match NetworkName::try_from(n.to_string()) {
+    Ok(net) => {
+      let again = IotaDID::from_alias_id(t, &net);
+      if &again != d || again.to_string() != s {
+        return Some("iota-reparse:from_alias_id(tag_str, network_str) differs".into());
+      }
+    }
+    Err(_) => return Some(format!("iota-network-syntax:NetworkName refuses {:?}", n)),
+  }
+  None
 }
 
 fn with(obs: String, f: Option<String>) -> String {
@@ -129,6 +162,24 @@ pub fn run(args: &[&str]) -> String {
       let Some(s) = arg(h) else { return "bad-request".into() };
       let Ok(core) = CoreDID::parse(&s) else { return "core-err".into() };
       let c2 = core.clone();
+      let valid = IotaDID::is_valid(&core);
+      if valid != IotaDID::check_validity(&core).is_ok() {
+        return "x\t#FAIL:iota-validity-tests-disagree:is_valid differs from check_validity".into();
+      }
+      // what the validity test accepts converts (the conversion additionally lower-cases)
+      if valid && IotaDID::try_from(core.clone()).is_err() {
+        return "x\t#FAIL:iota-validity-tests-disagree:is_valid accepts what try_from refuses".into();
+      }
+      if !valid && !s.chars().any(|c| c.is_uppercase()) && IotaDID::try_from(core.clone()).is_ok() {
+        return "x\t#FAIL:iota-validity-tests-disagree:try_from accepts a lower-case DID that is_valid refuses".into();
+      }
+      if let Ok(b) = identity_did::BaseDIDUrl::parse(&s) {
+        match (IotaDID::try_from(b), IotaDID::try_from(core.clone())) {
+          (Ok(x), Ok(y)) if x == y => {}
+          (Err(_), Err(_)) => {}
+          _ => return "x\t#FAIL:try-from-core-differs-from-parse:TryFrom<BaseDIDUrl> differs from TryFrom<CoreDID>".into(),
+        }
+      }
       match std::panic::catch_unwind(move || IotaDID::try_from(c2)) {
         Err(_) => "panic\t#FAIL:panic:IotaDID::try_from(CoreDID) panicked".into(),
         Ok(Err(_)) => {
@@ -161,8 +212,16 @@ pub fn run(args: &[&str]) -> String {
               Some(format!("new-network-differs:{:?}", d.network_str()))
             } else if tag_bytes(d.tag_str()) != Some(b.clone()) {
               Some("new-tag-bytes-differ:".into())
+            } else if d.is_placeholder() != b.iter().all(|x| *x == 0) {
+              Some("iota-placeholder:is_placeholder disagrees with the bytes".into())
             } else {
-              None
+              let net = NetworkName::try_from(n.clone()).unwrap();
+              let ph = IotaDID::placeholder(&net);
+              if !ph.is_placeholder() || ph.network_str() != n || tag_bytes(ph.tag_str()) != Some(vec![0u8; 32]) || (d.is_placeholder() && ph != d) {
+                Some("iota-placeholder:placeholder(network) is not the all-zero tag on that network".into())
+              } else {
+                oracle(&ph)
+              }
             }
           });
           with(show(&d), f)
@@ -172,6 +231,18 @@ pub fn run(args: &[&str]) -> String {
     ["net", n] => {
       let Some(n) = arg(n) else { return "bad-request".into() };
       let ok = NetworkName::try_from(n.clone()).is_ok();
+      if ok != NetworkName::validate_network_name(&n).is_ok() {
+        return "x\t#FAIL:network-name-rule:validate_network_name differs from try_from".into();
+      }
+      if let Ok(net) = NetworkName::try_from(n.clone()) {
+        let same = AsRef::<str>::as_ref(&net) == n && net.to_string() == n && format!("{:?}", net) == n && &*net == n.as_str();
+        let json = net.to_json().ok().and_then(|j| NetworkName::from_json(&j).ok()) == Some(net.clone());
+        if !same || !json {
+          return "x\t#FAIL:network-name-rule:a view of the accepted name differs from it".into();
+        }
+      } else if NetworkName::from_json(&serde_json::to_string(&n).unwrap_or_default()).is_ok() {
+        return "x\t#FAIL:network-name-rule:deserialisation accepts a refused name".into();
+      }
       let want = !n.is_empty() && n.len() <= 6 && n.chars().all(|c| c.is_ascii_lowercase() || c.is_ascii_digit());
       with(if ok { "ok" } else { "err" }.into(), if ok != want { Some(format!("network-name-rule:{:?}", n)) } else { None })
     }
